@@ -1226,6 +1226,13 @@ type c15RaceEnv struct {
 	proto                   protocolMap
 	conc, maxconc, accepted atomic.Int64
 	close                   func()
+	// when set, the reader holds its CloseConnectionResponse back until released (or 1.5 s)
+	closeGate atomic.Pointer[c15CloseGate]
+}
+
+type c15CloseGate struct {
+	seen    chan struct{} // the reader has received CloseConnection
+	release chan struct{}
 }
 
 func c15NewRaceEnv(id string, logDelay time.Duration) (*c15RaceEnv, string) {
@@ -1267,6 +1274,30 @@ func c15NewRaceEnv(id string, logDelay time.Duration) (*c15RaceEnv, string) {
 					case c15MsgGetReaderConfig:
 						c.Write(c15Frame(c15MsgGetReaderConfigResp, mid, c15Status(0)))
 					case c15MsgCloseConnection:
+						if g := e.closeGate.Load(); g != nil {
+							select {
+							case g.seen <- struct{}{}:
+							default:
+							}
+							// hold the answer back; notice when the device gives the connection up meanwhile
+							held, dl := true, time.Now().Add(1500*time.Millisecond)
+							for held && time.Now().Before(dl) {
+								select {
+								case <-g.release:
+									held = false
+									continue
+								default:
+								}
+								c.SetReadDeadline(time.Now().Add(10 * time.Millisecond))
+								var one [1]byte
+								if _, err := c.Read(one[:]); err != nil {
+									if ne, ok := err.(net.Error); !ok || !ne.Timeout() {
+										return // closed by the device (Stop's grace period is over)
+									}
+								}
+							}
+							c.SetReadDeadline(time.Time{})
+						}
 						c.Write(c15Frame(c15MsgCloseConnectionResponse, mid, c15Status(0)))
 						gone()
 						time.Sleep(2 * time.Millisecond)
@@ -1405,6 +1436,88 @@ func c15RunReadd(id string, reps int, logDelay time.Duration) string {
 		waitConn(0, 3*time.Second)
 	}
 	return fmt.Sprintf("managed=%d/%d connected=%d/%d maxconc=%d", managed, reps, connected, reps, e.maxconc.Load())
+}
+
+// c15RunReadd2: a device is re-added WHILE its removal is still in progress. The device is added and
+// connects; RemoveDevice begins and waits in LLRPDevice.Stop because the reader holds its
+// CloseConnectionResponse back; meanwhile api = "add" (AddDevice) / "update" (UpdateDevice) / "cmd" (a
+// read command) arrives for the same name; then the reader answers (even reps, 60 ms after the
+// caller came) or never does (odd reps: Stop gives up after shutdownGrace). Both calls return; the
+// caller came after the removal had begun and nobody asked for a removal since: the name must be
+// managed by a LIVE supervisor (the reader accepts, so: connected).
+// answer: "managed=<k>/<reps> connected=<k>/<reps> maxconc=<n> inside=<removals seen waiting in Stop>"
+func c15RunReadd2(id string, api string, reps int) string {
+	e, bad := c15NewRaceEnv(id, 0)
+	if e == nil {
+		return bad
+	}
+	defer e.close()
+	d, proto := e.d, e.proto
+	waitConn := func(want int64, dur time.Duration) bool {
+		for dl := time.Now().Add(dur); time.Now().Before(dl); time.Sleep(time.Millisecond) {
+			if e.conc.Load() == want {
+				return true
+			}
+		}
+		return e.conc.Load() == want
+	}
+	managed, connected, inside := 0, 0, 0
+	for rep := 0; rep < reps; rep++ {
+		name := fmt.Sprintf("readd2-%s-%d", id, rep)
+		e.r.name = name
+		_ = d.AddDevice(name, proto, models.Unlocked)
+		waitConn(1, 3*time.Second)
+		time.Sleep(30 * time.Millisecond) // negotiation and onConnect's SetReaderConfig are through
+		g := &c15CloseGate{seen: make(chan struct{}, 1), release: make(chan struct{})}
+		e.closeGate.Store(g)
+		removed := make(chan struct{})
+		go func() { _ = d.RemoveDevice(name, proto); close(removed) }()
+		select {
+		case <-g.seen:
+			inside++
+		case <-time.After(3 * time.Second):
+		}
+		called := make(chan struct{})
+		go func() {
+			switch api {
+			case "update":
+				_ = d.UpdateDevice(name, proto, models.Unlocked)
+			case "cmd":
+				_, _ = d.HandleReadCommands(name, proto, []dsModels.CommandRequest{{DeviceResourceName: ResourceReaderConfig, Type: "Object"}})
+			default:
+				_ = d.AddDevice(name, proto, models.Unlocked)
+			}
+			close(called)
+		}()
+		time.Sleep(60 * time.Millisecond)
+		if rep%2 == 0 {
+			close(g.release)
+		}
+		for _, ch := range []chan struct{}{removed, called} {
+			select {
+			case <-ch:
+			case <-time.After(30 * time.Second):
+			}
+		}
+		e.closeGate.Store(nil)
+		if rep%2 == 1 {
+			close(g.release)
+		}
+		// the old supervisor winds down; the new one (if any) connects at once or after its waits
+		time.Sleep(c15QuickWait)
+		if waitConn(1, 2*c15SlowWait+2*c15QuickWait+500*time.Millisecond) {
+			connected++
+		}
+		d.devicesMu.RLock()
+		_, ok := d.activeDevices[name]
+		d.devicesMu.RUnlock()
+		if ok {
+			managed++
+		}
+		_ = d.RemoveDevice(name, proto)
+		waitConn(0, 3*time.Second)
+	}
+	return fmt.Sprintf("managed=%d/%d connected=%d/%d maxconc=%d inside=%d", managed, reps, connected, reps, e.maxconc.Load(), inside)
 }
 
 // c15RunPend: a dial that is neither accepted nor refused when Stop arrives. The scripted reader
@@ -1606,6 +1719,11 @@ func TestVerifC15(t *testing.T) {
 			defer wg.Done()
 			defer func() { <-sem }()
 			emit("S %d\n", i)
+			if f[1] == "readd2" && len(f) == 4 {
+				reps, _ := strconv.Atoi(f[3])
+				emit("R %d %s\n", i, c15RunReadd2(f[0], f[2], reps))
+				return
+			}
 			if f[1] == "readd" && len(f) == 4 {
 				reps, _ := strconv.Atoi(f[2])
 				ms, _ := strconv.Atoi(f[3])
